@@ -247,6 +247,24 @@ func (x *Exec) frontBuiltin(env *SpecEnv, st *State, name string, args []TV) (TV
 			return TV{VScalar{IntLit(int64(len(calls(n))))}, intT}, true
 		}
 		return TV{}, false
+	case "mask":
+		// mask(states): bitwise or of a slice of state flags (also without a database ghost)
+		if len(args) == 1 {
+			g := &GhostDB{x: x}
+			return TV{VScalar{g.maskOf(env, st, args[0], nil)}, types.Typ[types.Int]}, true
+		}
+		return TV{}, false
+	case "lower":
+		// lower(s): strings.ToLower(s) (the same uninterpreted function the code sees)
+		if len(args) == 1 {
+			return TV{VScalar{App(SStr, "str.lower", env.term(args[0]))}, types.Typ[types.String]}, true
+		}
+		return TV{}, false
+	case "replaceall":
+		if len(args) == 3 {
+			return TV{VScalar{App(SStr, "str.replaceall", env.term(args[0]), env.term(args[1]), env.term(args[2]))}, types.Typ[types.String]}, true
+		}
+		return TV{}, false
 	case "jsonvalid":
 		// jsonvalid(s): json.Valid([]byte(s)) (the same uninterpreted predicate the code sees)
 		if len(args) == 1 {
